@@ -420,7 +420,7 @@ async fn run(case: &Case, ctx: &mut Ctx) -> Option<Violation> {
                 });
                 if !ok {
                     // is it some OTHER (older) record of the product?
-                    let older = case.db.iter().filter(|r| r.product == product).any(|r| doc.rows().iter().zip(REGIONS_V.iter()).all(|(row, region)| versions_row_matches(doc, row, region, r).is_ok()));
+                    let older = case.db.iter().filter(|r| r.product == product && !cands.iter().any(|c| std::ptr::eq(*c, *r))).any(|r| doc.rows().iter().zip(REGIONS_V.iter()).all(|(row, region)| versions_row_matches(doc, row, region, r).is_ok()));
                     if older {
                         return Err(("wrong_build_chosen".into(), if mixed_ts { ",timestamps=mixed_formats".into() } else { ",timestamps=uniform_utc".into() }, format!("{transport} {product}/{endpoint}: the rows describe a build that is not the chronologically newest of the product (newest build_time: {})", cands.first().map(|r| r.build_time.as_str()).unwrap_or("?"))));
                     }
@@ -447,7 +447,7 @@ async fn run(case: &Case, ctx: &mut Ctx) -> Option<Violation> {
                         let path = r.cdn_path.clone().unwrap_or_else(|| default_cdn.path.clone());
                         doc.rows().iter().all(|row| row.get_by_name("Path", sch).and_then(|v| v.as_string().map(str::to_string)).unwrap_or_default() == path)
                     };
-                    if case.db.iter().filter(|r| r.product == product).any(matches) {
+                    if case.db.iter().filter(|r| r.product == product && !cands.iter().any(|c| std::ptr::eq(*c, *r))).any(matches) {
                         return Err(("wrong_build_chosen".into(), if mixed_ts { ",timestamps=mixed_formats".into() } else { ",timestamps=uniform_utc".into() }, format!("{transport} {product}/cdns: the rows carry the CDN path of a build that is not the chronologically newest of the product")));
                     }
                     return Err(("field_mismatch".into(), ",endpoint=cdns".into(), format!("{transport} {product}/cdns: the rows do not equal the resolved CDN configuration of the newest build")));
